@@ -12,6 +12,8 @@ def metaErr : Meta.Err → GoErr
   | .noKey => .err "ErrNoEncryptionKey"
   | .keySize => .err "ErrInvalidKeySize"
   | .zeroKey => .err "ErrZeroKey"
+  | .shortCiphertext => .err "ErrShortCipherText"
+  | .decryption => .err "decryption failed"
   | _ => .err "other"
 
 /-- the `for _, b := range key` loop: from position `k`, with enough fuel, it returns as soon as a
@@ -65,5 +67,87 @@ theorem validateKey_eq (key : Option Bytes) :
         simp [this, Except.map, Except.mapError]
     · have : ¬ ((k.length : Int) = 32) := by omega
       simp [notNil, len, hl, this, Meta.keySize, Except.map, Except.mapError, metaErr, bind, Except.bind, throw, throwThe, MonadExceptOf.throw]
+
+/-! ### `EncryptWithKey` / `DecryptStringWithKey`: the wrapper around secretbox
+
+`secretbox.Seal`, `secretbox.Open` and the random source are parameters of the translation. The fixed-size arrays of the Go code
+(`var secretKey [32]byte; copy(secretKey[:], key)`) are byte lists of that length; `copyInto` is Go's `copy` into such an array. -/
+
+theorem copyInto_full (n : Nat) (src : Bytes) (h : src.length = n) :
+    copyInto (List.replicate n (0 : UInt8)) src = src := by
+  subst h
+  simp [copyInto]
+
+theorem validateKey_ok_length (key : Option Bytes) (k : Bytes) (h : Meta.validateKey key = .ok k) :
+    key = some k ∧ k.length = 32 := by
+  unfold Meta.validateKey at h
+  cases key with
+  | none => simp at h
+  | some k0 =>
+    by_cases h1 : k0.length ≠ Meta.keySize
+    · simp [h1] at h
+    · by_cases h2 : (k0.all fun x => x == 0) = true
+      · simp [h1, h2] at h
+      · simp only [h1, h2, if_false] at h
+        have : k0 = k := Except.ok.inj h
+        subst this
+        have : k0.length = Meta.keySize := by simpa using h1
+        exact ⟨rfl, this⟩
+
+/-- `EncryptWithKey`, regenerated: the key is validated first; the nonce is what the random source delivered (all 24 bytes or an
+error); the stored value is nonce ‖ Seal(key, nonce, data) — the key and the nonce handed to `Seal` are the caller's key bytes and
+that nonce, nothing else -/
+theorem EncryptWithKey_eq (randRead : Nat → GoM Bytes) (sealFn : Bytes → Bytes → Bytes → Bytes) (data : Bytes) (key : Option Bytes) :
+    Gen.EncryptWithKey randRead sealFn data key =
+      match Meta.validateKey key with
+      | .error e => .error (metaErr e)
+      | .ok _ => randRead 24 >>= fun nonce => (Meta.encrypt sealFn key nonce data).mapError metaErr := by
+  unfold Gen.EncryptWithKey
+  rw [validateKey_eq]
+  cases hv : Meta.validateKey key with
+  | error e => simp [Except.map, Except.mapError, bind, Except.bind]
+  | ok k =>
+    obtain ⟨hk, hl⟩ := validateKey_ok_length key k hv
+    subst hk
+    simp only [Except.map, Except.mapError, bind, Except.bind, Option.getD_some, copyInto_full 32 k hl, pure, Except.pure]
+    cases randRead 24 with
+    | error e => rfl
+    | ok nonce => simp [Meta.encrypt, hv, Except.mapError]
+
+/-- Go's `Open` returns (message, ok); the model's returns an option -/
+def openOpt (openFn : Bytes → Bytes → Bytes → (Bytes × Bool)) (k n box : Bytes) : Option Bytes :=
+  if (openFn k n box).2 then some (openFn k n box).1 else none
+
+/-- `DecryptStringWithKey`, regenerated, is the model's `decrypt`: key validated first, at least 24 bytes required, the first 24
+bytes are the nonce and the rest the box handed to `Open` with the caller's key bytes; what `Open` refuses is an error, never data -/
+theorem DecryptStringWithKey_eq (openFn : Bytes → Bytes → Bytes → (Bytes × Bool)) (data : Bytes) (key : Option Bytes) :
+    Gen.DecryptStringWithKey openFn data key = (Meta.decrypt (openOpt openFn) key data).mapError metaErr := by
+  unfold Gen.DecryptStringWithKey Meta.decrypt
+  rw [validateKey_eq]
+  cases hv : Meta.validateKey key with
+  | error e => simp [Except.map, Except.mapError, bind, Except.bind]
+  | ok k =>
+    obtain ⟨hk, hl⟩ := validateKey_ok_length key k hv
+    subst hk
+    by_cases hs : data.length < 24
+    · have : ((data.length : Int) < 24) := by omega
+      simp [Except.map, Except.mapError, bind, Except.bind, len, this, hs, Meta.nonceSize, metaErr, throw, throwThe,
+        MonadExceptOf.throw, pure, Except.pure]
+    · have h1 : ¬ ((data.length : Int) < 24) := by omega
+      have hsl1 : slice data 0 24 = .ok (data.take 24) := by
+        have : (0 : Int) ≤ 0 ∧ (0 : Int) ≤ 24 ∧ (24 : Int) ≤ data.length := by omega
+        simp [slice, this, pure, Except.pure]
+      have hsl2 : slice data 24 (data.length : Int) = .ok (data.drop 24) := by
+        have : (0 : Int) ≤ 24 ∧ (24 : Int) ≤ data.length ∧ ((data.length : Nat) : Int) ≤ data.length := by omega
+        have h3 : (((data.length : Nat) : Int) - 24).toNat = data.length - 24 := by omega
+        have h4 : (data.drop 24).take (data.length - 24) = data.drop 24 := by
+          apply List.take_of_length_le; simp
+        simp [slice, this, pure, Except.pure, h3, h4]
+      have htake : (data.take 24).length = 24 := by simp; omega
+      rcases hr : openFn k (data.take 24) (data.drop 24) with ⟨m, okb⟩
+      simp only [Except.map, Except.mapError, bind, Except.bind, len, h1, decide_false, Bool.false_eq_true, ↓reduceIte,
+        Option.getD_some, copyInto_full 32 k hl, hsl1, hsl2, copyInto_full 24 (data.take 24) htake, pure, Except.pure,
+        hs, Meta.nonceSize, openOpt, hr]
+      cases okb <;> simp [metaErr, throw, throwThe, MonadExceptOf.throw]
 
 end Ucan.Tie
